@@ -205,6 +205,74 @@ func c17(r *core.Report) {
 		"the sibling encoders treat an encoding error the same way ("+behaviours["MarshalPublicKey"]+")",
 		fmt.Sprintf("sibling encoders disagree on the encoding-error edge: MarshalPublicKey=%s, MarshalPrivateKey=%s", behaviours["MarshalPublicKey"], behaviours["MarshalPrivateKey"]))
 
+	// ---- C17-RAW-PINNED: the decoder is encoding/asn1; an encoder path that emits a key field's bytes itself
+	// (behind a hand-written header, a cached prefix) writes lengths the codec would have computed. Such a path
+	// agrees with the decoder for one field length only, so it must be entered on a len(field) == constant edge.
+	r.Rule("C17-RAW-PINNED", "a key encoder appends a field's bytes outside the asn1 codec only where the field's length is pinned by an equality check", 2)
+	for _, d := range [][2]string{{"f/x509", "MarshalPublicKey"}, {"f/x509", "MarshalPrivateKey"}} {
+		fn := needFn(r, d[0], d[1])
+		if fn == nil {
+			continue
+		}
+		r.Analysed(fn)
+		raw := 0
+		for _, in := range core.AllInstrs(fn) {
+			call, ok := in.(*ssa.Call)
+			if !ok || !core.IsBuiltin(call.Common(), "append") || len(call.Call.Args) < 2 {
+				continue
+			}
+			var fld *types.Var
+			core.BackingOrigins(p, call.Call.Args[1], 0, func(x ssa.Value) bool {
+				if f, _ := core.FieldRead(x); f != nil {
+					if sl, isSl := f.Type().Underlying().(*types.Slice); isSl {
+						if b, isB := sl.Elem().Underlying().(*types.Basic); isB && b.Kind() == types.Byte && fld == nil {
+							fld = f
+						}
+					}
+					return false
+				}
+				_, isCall := x.(*ssa.Call)
+				_, isExt := x.(*ssa.Extract)
+				return !isCall && !isExt
+			})
+			if fld == nil {
+				continue
+			}
+			raw++
+			pinned := core.CutWhere(func(cond ssa.Value) int {
+				b, ok := cond.(*ssa.BinOp)
+				if !ok || (b.Op != token.EQL && b.Op != token.NEQ) {
+					return 0
+				}
+				isLenOf := func(v ssa.Value) bool {
+					c, ok := v.(*ssa.Call)
+					if !ok || !core.IsBuiltin(c.Common(), "len") {
+						return false
+					}
+					f, _ := core.FieldRead(c.Call.Args[0])
+					return f != nil && f == fld
+				}
+				_, kx := core.ConstInt(b.X)
+				_, ky := core.ConstInt(b.Y)
+				if !((isLenOf(b.X) && ky) || (isLenOf(b.Y) && kx)) {
+					return 0
+				}
+				if b.Op == token.EQL {
+					return 1
+				}
+				return -1
+			})
+			// cut the edges on which the length is pinned: the append must then be unreachable
+			unpinned := core.Reach(fn, nil, pinned, nil)[in]
+			r.Check(!unpinned, "C17-RAW-PINNED", fmt.Sprintf("%s raw append of %s #%d", core.FnName(fn), fld.Name(), raw), p.Pos(call.Pos()),
+				"reached only where len("+fld.Name()+") equals a constant",
+				"the encoder appends "+fld.Name()+" itself, outside encoding/asn1, for every length of the field: the lengths in the bytes it wrote in front are right for one length only, every other key of that kind encodes to bytes ParsePublicKey rejects or reads as a different key")
+		}
+		if raw == 0 {
+			r.OK("C17-RAW-PINNED", core.FnName(fn)+" no raw append", p.Pos(fn.Pos()), "every byte of the output comes from encoding/asn1.Marshal")
+		}
+	}
+
 	// ---- C17-FIELDS
 	r.Rule("C17-FIELDS", "Marshal/Parse/Equal/IsZero of a key type touch the same field set: all fields", 7)
 	ruleKeyFields(r, "C17-FIELDS", false)
